@@ -104,6 +104,10 @@ MUTATIONS = [
     ("dask_expr/_merge.py", "            if predicate_cols and predicate_cols.issubset(self.right.columns):\n                if right_suffix != \"\" and any(", "            if predicate_cols and not predicate_cols.issubset(self.left.columns):\n                if right_suffix != \"\" and any(", "vf.contracts.filters:MergeFilterPushdown", "post:an-input-is-filtered-only-where"),
     ("dask_expr/_merge.py", "        suffix = self.suffixes[0] if side == \"left\" else self.suffixes[1]\n", "        suffix = self.suffixes[1] if side == \"left\" else self.suffixes[0]\n", "vf.contracts.filters:RenamedBySuffix", "post:true-iff"),
     ("dask_expr/_merge.py", "            predicate_cols = self._predicate_columns(parent.predicate)\n            new_left, new_right = self.left, self.right\n", "            predicate_cols = self._predicate_columns(parent.predicate)\n            kept_left, kept_right = self.left, self.right\n            new_left, new_right = kept_left, kept_right\n", "vf.contracts.filters:MergeFilterPushdown", None),
+    # what is shipped to another process (C16)
+    ("dask_expr/_core.py", "        return type(self), tuple(self.operands)\n", "        return type(self), tuple(self.operands[:-1])\n", "vf.contracts.serialize:ExprReduce", "post:class-and-all-operands-in-order"),
+    ("dask_expr/_core.py", "        if dask.config.get(\"dask-expr-no-serialize\", False):\n            raise RuntimeError(f\"Serializing a {type(self)} object\")\n        return type(self), tuple(self.operands)", "        if dask.config.get(\"dask-expr-no-serialize\", False):\n            pass\n        return type(self), tuple(self.operands)", "vf.contracts.serialize:ExprReduce", "post:never-returns-when"),
+    ("dask_expr/_util.py", "        return type(self), (self._data,)\n", "        return type(self), (self._data, self._division_info)\n", "vf.contracts.serialize:BackendDataReduce", "post:only-the-data"),
     # harmless edits: renamed local, reordered independent statements, extra statement
     ("dask_expr/_expr.py", "        new_divisions = []\n        for part in self._partitions:\n            new_divisions.append(full_divisions[part])\n        new_divisions.append(full_divisions[part + 1])\n        return tuple(new_divisions)", "        picked = []\n        for part in self._partitions:\n            picked.append(full_divisions[part])\n        picked.append(full_divisions[part + 1])\n        return tuple(picked)", "vf.contracts.partitions:PFDivisions", None),
     ("dask_expr/_repartition.py", "        npartitions = self.new_partitions\n        npartitions_input = self.frame.npartitions\n", "        npartitions_input = self.frame.npartitions\n        npartitions = self.new_partitions\n", "vf.contracts.repartition:FewerBoundaries", None),
